@@ -164,6 +164,8 @@ def run(ctx, rep):
     # ------------------------------------------------------------------ R07.3
     c06.check_mediation(ctx, rep, "R07.3", "R07.3")
     K.share(ctx, rep, "c06", lambda o: o.rule == "R06.3", "R07.3", floor=1)
+    K.share(ctx, rep, "c06", lambda o: o.rule == "R06.7" and ("Server" in o.key) or (o.rule == "R06.6" and "default to the readable" in o.key),
+            "R07.3", floor=1)
     K.share(ctx, rep, "c02", lambda o: o.rule in ("R02.1", "R02.2") and "through the policy" in o.key, "R07.3", floor=2)
     K.share(ctx, rep, "c03", lambda o: o.rule == "R03.3" and "resolves only through" in o.key, "R07.2", floor=1)
 
